@@ -111,6 +111,7 @@ VH_AREA(flow) {
             }
             st.hit("cases.wide");
         }
+        if (a.replay.empty()) { Rng ru = rng.sub(777); if (ru.chance(0.2)) { c = unfused_object(c); st.hit("cases.unfused_object"); } }
         out_case(k, esc_line(c.str()));
         std::string w = wire_circuit(c);
         size_t nq = c.count_qubits();
